@@ -340,8 +340,14 @@ func c08MetaDom(c *Ctx, r *Report, rule string) {
 					if f != "meta" || !isReflectNamed(t.Val.Type(), "Type") {
 						continue
 					}
+					lbl := m.typeLabel(t.Val, 0)
+					if lbl[tlMeta] && len(lbl) == 1 {
+						// a recorded type copied from another node's record (a schema derived again takes over what
+						// was registered on the previous one): derived like the record it was copied from
+						continue
+					}
 					ns[o]++
-					sites[o] = append(sites[o], metaSite{fn, t.Pos(), fmt.Sprintf("%s: value #%d recorded in %s.meta", fnName(fn), ns[o], o), m.typeLabel(t.Val, 0)})
+					sites[o] = append(sites[o], metaSite{fn, t.Pos(), fmt.Sprintf("%s: value #%d recorded in %s.meta", fnName(fn), ns[o], o), lbl})
 				case *ssa.BinOp:
 					if (t.Op != token.EQL && t.Op != token.NEQ) || !isReflectNamed(t.X.Type(), "Type") || !isReflectNamed(t.Y.Type(), "Type") {
 						continue
